@@ -139,3 +139,49 @@ Proof.
   - destruct Hin as [<-|[]]. destruct (wf_span n x H). lia.
   - eapply wf_children_start; eassumption.
 Qed.
+
+(** ... the children of a match without its inserts ([Bracketed] takes the children of an
+    un-named content match and drops its metas) *)
+Lemma wf_cat_children n s e ins ch x :
+  wf n (MR s e None ins ch) = true -> wf n x = true -> e <= mr_start x ->
+  wf n (MR s (mr_end x) None ins (ch ++ mr_ch x)) = true.
+Proof.
+  intros H Hx Hle. destruct x as [sx ex mx ix cx]. apply wf_node_elim in Hx as [Hc [A1 A2 A3 A4 A5 A6 A7 _]].
+  cbn [mr_start mr_end mr_ch] in *. rewrite <- (app_nil_r ins).
+  eapply wf_cat_gen with (s2 := sx) (p2 := false); [exact H|exact Hc| |exact Hle].
+  split; auto.
+  - intros c q _ [].
+  - intros q [].
+Qed.
+
+(** [apply] handles the children that start at one position in vector order, so the vector may be
+    permuted as long as no other child starts where the moved one does *)
+Lemma wf_move n s e m ins P X c :
+  wf n (MR s e m ins (P ++ X ++ [c])) = true ->
+  (forall x, In x X -> mr_start x <> mr_start c) ->
+  wf n (MR s e m ins (P ++ c :: X)) = true.
+Proof.
+  intros H Hne. apply wf_node_elim in H as [Hc [A1 A2 A3 A4 A5 A6 A7 A8]].
+  assert (Hin : forall (A : Type) (f : mr -> A) z, In z (map f (P ++ c :: X)) <-> In z (map f (P ++ X ++ [c]))).
+  { intros A f z. rewrite !map_app. cbn [map]. rewrite !in_app_iff. cbn [In]. tauto. }
+  apply wf_node_intro.
+  - intros x Hx. apply Hc. specialize (Hin mr (fun y => y) x). rewrite !map_id in Hin. apply Hin. exact Hx.
+  - unfold spans in *. split; auto.
+    + intros z Hz. apply A2. apply Hin. exact Hz.
+    + intros z z' Hz Hz'. apply A3; apply Hin; assumption.
+    + intros z q Hz. apply A4. apply Hin. exact Hz.
+    + rewrite map_app in A5 |- *. cbn [map]. rewrite map_app in A5. cbn [map] in A5.
+      apply chain_ok_app in A5 as (C1 & C2 & C3).
+      apply chain_ok_app in C2 as (C4 & _ & _).
+      apply chain_ok_app. repeat split; [exact C1| |].
+      * apply chain_ok_cons. split; [|exact C4].
+        intros c' Hc' Heq. apply in_map_iff in Hc' as (x & <- & Hx). cbn in Heq.
+        exfalso. apply (Hne x Hx). symmetry. exact Heq.
+      * intros z z' Hz Hz'. apply C3; [exact Hz|]. rewrite in_app_iff. cbn [In] in *. tauto.
+    + destruct m as [[k|k]|]; [| |exact I].
+      * destruct A8 as [A8|[A8|A8]]; auto. right. right.
+        rewrite !existsb_app in A8. cbn [existsb] in A8. rewrite !existsb_app. cbn [existsb].
+        destruct (existsb produces P), (existsb produces X), (produces c); cbn in *; auto.
+      * destruct A8 as (E1 & E2 & E3). repeat split; auto.
+        destruct P; destruct X; cbn in E3; discriminate.
+Qed.
